@@ -184,9 +184,11 @@ func cmdCheck(args []string) int {
 				}
 			}
 			cfg := sym.Config{Tier: tier, Jobs: *jobs, Solver: "z3", Fallbacks: []string{"cvc5"}, TimeoutMs: 10000, Budget: 3000000, KnownActive: active}
+			cfg.WallLimit = 15 * time.Minute
 			if tier == 1 {
 				cfg.TimeoutMs = 60000
 				cfg.Budget = 20000000
+				cfg.WallLimit = 3 * time.Hour
 			}
 			if hc.Solver != "" {
 				cfg.Solver = hc.Solver
